@@ -70,7 +70,7 @@ func Recommend(
 	if err != nil {
 		return nil, 0, err
 	}
-	if (board.BrdAttr&ptttype.BRD_NORECOMMEND) != 0 || filename[0] == 'L' || ((fhdr.Filemode&ptttype.FILE_MARKED) != 0 && (fhdr.Filemode&ptttype.FILE_SOLVED) != 0) {
+	if (board.BrdAttr&ptttype.BRD_NORECOMMEND) != 0 || fhdr.Filename[0] == 'L' || ((fhdr.Filemode&ptttype.FILE_MARKED) != 0 && (fhdr.Filemode&ptttype.FILE_SOLVED) != 0) {
 		return nil, 0, ErrNotPermitted
 	}
 
